@@ -199,13 +199,144 @@ Qed.
 (** ids and possible values (the names [PathTableLex.arg_plain] does not speak about) *)
 Definition id_plain (a : arg) : bool :=
   ntame (a_id a) && match a_pvs a with Some l => forallb (fun v => ntame (pv_name v)) l | None => true end.
-Fixpoint ids_plain (c : cmd) : bool :=
-  match c with
-  | mkCmd _ _ args subs _ _ _ _ _ =>
-      forallb id_plain args && (fix go (l : list cmd) : bool := match l with [] => true | s :: l' => ids_plain s && go l' end) subs
-  end.
+(** a predicate on arguments, at every node of the tree; [Command::build] keeps it (the two generated
+    arguments satisfy it, global arguments are copied, the help tree has no arguments) *)
+Section BuildArgs.
+  Variable P : arg -> bool.
+  Hypothesis Phelp : P help_arg = true.
+  Hypothesis Pversion : P version_arg = true.
+
+  Fixpoint args_all (c : cmd) : bool :=
+    match c with
+    | mkCmd _ _ args subs _ _ _ _ _ =>
+        forallb P args && (fix go (l : list cmd) : bool := match l with [] => true | s :: l' => args_all s && go l' end) subs
+    end.
+  Lemma aa_unfold c : args_all c = forallb P (c_args c) && forallb args_all (c_subs c).
+  Proof. destruct c; reflexivity. Qed.
+  Lemma aa_iff c :
+    args_all c = true <-> forallb P (c_args c) = true /\ (forall sc, In sc (c_subs c) -> args_all sc = true).
+  Proof.
+    rewrite aa_unfold, andb_true_iff. split.
+    - intros [A B]. split; [exact A|]. intros sc Hsc. rewrite forallb_forall in B. exact (B sc Hsc).
+    - intros [A B]. split; [exact A|]. apply forallb_forall. exact B.
+  Qed.
+  Lemma aa_mk n al args subs bin h v s g n' al' bin' h' v' s' g' :
+    args_all (mkCmd n al args subs bin h v s g) = true -> args_all (mkCmd n' al' args subs bin' h' v' s' g') = true.
+  Proof. rewrite !aa_iff. cbn. tauto. Qed.
+  Lemma aa_with_sets c s g : args_all c = true -> args_all (with_sets c s g) = true.
+  Proof. destruct c. apply aa_mk. Qed.
+  Lemma aa_with_version c v : args_all c = true -> args_all (with_version c v) = true.
+  Proof. destruct c. apply aa_mk. Qed.
+  Lemma aa_with_bin c b : args_all c = true -> args_all (with_bin c b) = true.
+  Proof. destruct c. apply aa_mk. Qed.
+  Lemma aa_with_subs c l : args_all c = true -> (forall sc, In sc l -> args_all sc = true) -> args_all (with_subs c l) = true.
+  Proof. rewrite !aa_iff. destruct c; cbn. intros (A & _) H. auto. Qed.
+  Lemma aa_with_args c l : args_all c = true -> forallb P l = true -> args_all (with_args c l) = true.
+  Proof. rewrite !aa_iff. destruct c; cbn. intros (_ & E) H. auto. Qed.
+  Lemma aa_args c : args_all c = true -> forallb P (c_args c) = true.
+  Proof. rewrite aa_iff. tauto. Qed.
+  Lemma aa_subs c sc : args_all c = true -> In sc (c_subs c) -> args_all sc = true.
+  Proof. rewrite aa_iff. intros (_ & H). apply H. Qed.
+  Lemma aa_add_arg c a : args_all c = true -> P a = true -> args_all (with_args c (c_args c ++ [a])) = true.
+  Proof.
+    intros Hc Ha. apply aa_with_args; [exact Hc|]. rewrite forallb_app, (aa_args c Hc). cbn. now rewrite Ha.
+  Qed.
+  Lemma aa_propagate_subcommand p sc : args_all sc = true -> args_all (propagate_subcommand p sc) = true.
+  Proof.
+    intros H. unfold propagate_subcommand. apply aa_with_sets.
+    destruct (s_pver (c_set p) && c_version p); [apply aa_with_version|]; exact H.
+  Qed.
+  Lemma aa_copy : forall c, args_all (copy_subtree_for_help c) = true.
+  Proof.
+    induction c as [n al args subs bin h v s g IH] using cmd_ind'.
+    cbn [copy_subtree_for_help]. rewrite aa_iff. cbn. split; [reflexivity|].
+    intros sc Hsc. apply in_map_iff in Hsc. destruct Hsc as (x & <- & Hx).
+    rewrite Forall_forall in IH. apply IH; auto.
+  Qed.
+  Lemma aa_help_subcommand p : args_all (help_subcommand p) = true.
+  Proof.
+    unfold help_subcommand. apply aa_with_sets, aa_with_version, aa_propagate_subcommand.
+    rewrite aa_iff. cbn. split; [reflexivity|].
+    intros sc Hsc. apply in_app_iff in Hsc. destruct Hsc as [Hsc|[<-|[]]].
+    - apply in_map_iff in Hsc. destruct Hsc as (x & <- & Hx). apply aa_copy.
+    - reflexivity.
+  Qed.
+  Lemma aa_bs_settings c : args_all c = true -> args_all (bs_settings c) = true.
+  Proof. intros H. unfold bs_settings. apply aa_with_sets, H. Qed.
+  Lemma aa_bs_propagate c : args_all c = true -> args_all (bs_propagate c) = true.
+  Proof.
+    intros H. unfold bs_propagate. apply aa_with_subs; [exact H|].
+    intros sc Hsc. apply in_map_iff in Hsc. destruct Hsc as (x & <- & Hx).
+    apply aa_propagate_subcommand, (aa_subs c x H Hx).
+  Qed.
+  Lemma aa_bs_help_version c : args_all c = true -> args_all (bs_help_version c) = true.
+  Proof.
+    intros H. unfold bs_help_version.
+    set (c1 := if negb (is_set s_dhf c) then with_args c (c_args c ++ [help_arg]) else c).
+    assert (H1 : args_all c1 = true) by (unfold c1; destruct (negb (is_set s_dhf c)); [apply aa_add_arg|]; auto).
+    set (c2 := if negb (is_disable_version_flag_set c1) then with_args c1 (c_args c1 ++ [version_arg]) else c1).
+    assert (H2 : args_all c2 = true)
+      by (unfold c2; destruct (negb (is_disable_version_flag_set c1)); [apply aa_add_arg|]; auto).
+    destruct (negb (is_set s_dhs c2)); [|exact H2].
+    apply aa_with_subs; [exact H2|]. intros sc Hsc. apply in_app_iff in Hsc.
+    destruct Hsc as [Hsc|[<-|[]]]; [exact (aa_subs c2 sc H2 Hsc)|apply aa_help_subcommand].
+  Qed.
+  Lemma aa_bs_globals c : args_all c = true -> args_all (bs_globals c) = true.
+  Proof.
+    intros H. unfold bs_globals. apply aa_with_subs; [exact H|].
+    intros sc Hsc. apply in_map_iff in Hsc. destruct Hsc as (x & <- & Hx).
+    pose proof (aa_subs c x H Hx) as Hxp.
+    destruct (beq (c_name x) (lit "help") && negb (is_set s_dhs c)); [exact Hxp|].
+    assert (Hg : forall a, In a (filter a_global (c_args c)) -> P a = true).
+    { intros a Ha. apply filter_In in Ha. destruct Ha as [Ha _].
+      pose proof (aa_args c H) as Hargs. rewrite forallb_forall in Hargs. exact (Hargs a Ha). }
+    clear Hx. revert x Hxp Hg. generalize (filter a_global (c_args c)) as gl.
+    induction gl as [|a gl IH]; intros x Hxp Hg; [exact Hxp|].
+    cbn [fold_left]. apply IH.
+    - destruct (is_some (find_arg x (a_id a))); [exact Hxp|apply aa_add_arg; [exact Hxp|apply Hg; now left]].
+    - intros a' Ha'. apply Hg. now right.
+  Qed.
+  Lemma aa_build_self c : args_all c = true -> args_all (build_self c) = true.
+  Proof.
+    intros H. unfold build_self. apply aa_bs_globals, aa_bs_help_version, aa_bs_propagate, aa_bs_settings, H.
+  Qed.
+  Lemma aa_build_recursive : forall fuel c b, build_recursive fuel c = Some b -> args_all c = true -> args_all b = true.
+  Proof.
+    induction fuel as [|f IH]; intros c b H Hc; [discriminate|].
+    cbn [build_recursive] in H.
+    destruct (map_opt (build_recursive f) (c_subs (build_self c))) as [subs|] eqn:E; [|discriminate].
+    inversion H; subst b; clear H. pose proof (aa_build_self c Hc) as Hs.
+    apply aa_with_subs; [exact Hs|].
+    apply map_opt_Forall2 in E.
+    assert (Hl : forall z, In z (c_subs (build_self c)) -> args_all z = true) by (intros z Hz; exact (aa_subs _ z Hs Hz)).
+    clear Hs. revert subs E Hl. generalize (c_subs (build_self c)) as l.
+    induction l as [|x l IHl]; intros subs E Hl sc Hsc.
+    - inversion E; subst. destruct Hsc.
+    - inversion E as [|x' y l' r Hxy Hrest]; subst. destruct Hsc as [<-|Hsc].
+      + apply (IH x y Hxy). apply Hl. now left.
+      + apply (IHl r Hrest); [|exact Hsc]. intros z Hz. apply Hl. now right.
+  Qed.
+  Lemma aa_assign_bins : forall c inh, args_all c = true -> args_all (assign_bins inh c) = true.
+  Proof.
+    induction c as [n al args subs bin h v s g IH] using cmd_ind'. intros inh Hc.
+    rewrite aa_iff in Hc. cbn in Hc. destruct Hc as (Hargs & Hsubs).
+    cbn [assign_bins]. rewrite aa_iff. cbn [c_args c_subs]. split; [exact Hargs|].
+    intros sc Hsc. apply in_map_iff in Hsc. destruct Hsc as (x & <- & Hx).
+    rewrite Forall_forall in IH. apply IH; [exact Hx|exact (Hsubs x Hx)].
+  Qed.
+  Theorem aa_build c b : build c = Some b -> args_all c = true -> args_all b = true.
+  Proof.
+    unfold build. destruct (build_recursive (build_fuel c) c) as [c'|] eqn:E; [|discriminate].
+    intros H Hc. inversion H; subst b. apply aa_assign_bins.
+    exact (aa_build_recursive _ c c' E Hc).
+  Qed.
+  Lemma aa_set_bin_name c bin : args_all c = true -> args_all (set_bin_name c bin) = true.
+  Proof. unfold set_bin_name. apply aa_with_bin. Qed.
+End BuildArgs.
+
+Definition ids_plain (c : cmd) : bool := args_all id_plain c.
 Lemma ids_plain_unfold c : ids_plain c = forallb id_plain (c_args c) && forallb ids_plain (c_subs c).
-Proof. destruct c; reflexivity. Qed.
+Proof. apply aa_unfold. Qed.
 
 (** every name the generator writes is plain: bin names, shorts, longs, their aliases ([cmd_plain]; it also
     constrains command names and aliases, from which [build] makes the bin names), ids, possible values *)
@@ -543,4 +674,89 @@ Proof.
   - exact (build_bins_built _ _ Eb).
   - exact Hc.
   - apply dbuild_erase_congr. exact He.
+Qed.
+
+(** [Command::build] keeps a tree in the class: the names it generates (help, version, h, V) and the blank in
+    the bin paths are plain, global arguments are copied with their ids and values *)
+Theorem build_nu_class c bin b :
+  build (set_bin_name c bin) = Some b -> nu_class c = true -> ntame bin = true -> nu_class b = true.
+Proof.
+  unfold nu_class. rewrite !andb_true_iff. intros Eb [Hc Hi] Hbin. split.
+  - apply (cp_build nu_plain eq_refl eq_refl eq_refl eq_refl _ b Eb). apply cp_set_bin_name; assumption.
+  - apply (aa_build id_plain eq_refl eq_refl _ b Eb). apply aa_set_bin_name. exact Hi.
+Qed.
+
+(** the class stated on the SOURCE tree (what the user wrote) and the bin name; [generate] always succeeds *)
+Theorem generate_nushell_text_invariance_src c d1 d2 bin :
+  nu_class c = true -> ntame bin = true -> erase_desc d1 = erase_desc d2 ->
+  exists s1 s2, generate_nushell c d1 bin = Some s1 /\ generate_nushell c d2 bin = Some s2 /\
+    skeleton (events nu_step NB s1) = skeleton (events nu_step NB s2) /\
+    final nu_step NB s1 = final nu_step NB s2.
+Proof.
+  intros Hc Hbin He. destruct (build (set_bin_name c bin)) as [b|] eqn:Eb.
+  - apply (generate_nushell_text_invariance c d1 d2 bin b Eb); [|exact He].
+    exact (build_nu_class c bin b Eb Hc Hbin).
+  - exfalso. exact (BuildTexts.build_total _ Eb).
+Qed.
+
+(** ---- non-vacuity, and the class boundary ---- *)
+(** a user tree with an option (short, long, visible alias, possible values), a POSITIONAL (the second call path
+    of a help text) and a subcommand with a flag; one decoration with quotes of all kinds, backticks, hashes,
+    backslashes, command substitutions and newlines in every slot, one with innocuous text *)
+Definition nx_pos : arg := mkArg (lit "file") None None [] [] ASet None None (Some HFilePath) false false false.
+Definition nx_user : cmd := mkCmd (lit "my-app") [] [lx_opt; nx_pos] [lx_sub] None false false sets0 sets0.
+Definition nx_adv : cdesc :=
+  mkCd (Some (lit "root # ""q"" 'x' `y` \")) false
+       [mkAd (Some (lit "it's $(rm -rf) \ ""x""")) false [Some (lit "a'$(x)""\"); None; Some [10; 39]];
+        mkAd (Some [39; 10; 34; 96; 35; 13; 10; 92]) false []]
+       [mkCd (Some [39; 10; 36; 40; 41; 34]) false [mkAd (Some (lit "\'")) false []] []].
+Definition nx_inn : cdesc := innocuous_desc nx_adv.
+
+Example generate_nushell_text_invariance_hyps :
+  nu_class nx_user = true /\ ntame (lit "my-app") = true /\ erase_desc nx_adv = erase_desc nx_inn /\ nx_adv <> nx_inn /\
+  exists s1 s2, generate_nushell nx_user nx_adv (lit "my-app") = Some s1 /\
+                generate_nushell nx_user nx_inn (lit "my-app") = Some s2 /\ s1 <> s2.
+Proof.
+  split; [reflexivity|]. split; [reflexivity|]. split; [reflexivity|].
+  split; [intros H; vm_compute in H; discriminate|].
+  destruct (generate_nushell nx_user nx_adv (lit "my-app")) as [s1|] eqn:E1; [|vm_compute in E1; discriminate].
+  destruct (generate_nushell nx_user nx_inn (lit "my-app")) as [s2|] eqn:E2; [|vm_compute in E2; discriminate].
+  exists s1, s2. split; [reflexivity|]. split; [reflexivity|].
+  intros ->. rewrite <- E1 in E2. vm_compute in E2. discriminate.
+Qed.
+
+(** the hypotheses of the theorems about a built tree *)
+Example nu_text_invariance_hyps :
+  exists b, build (set_bin_name nx_user (lit "my-app")) = Some b /\
+    c_bin b <> None /\ bins_built b /\ nu_class b = true /\
+    erase_desc (dbuild (set_bin_name nx_user (lit "my-app")) nx_adv) = erase_desc (dbuild (set_bin_name nx_user (lit "my-app")) nx_inn) /\
+    nushell_script b (dbuild (set_bin_name nx_user (lit "my-app")) nx_adv) <>
+    nushell_script b (dbuild (set_bin_name nx_user (lit "my-app")) nx_inn).
+Proof.
+  destruct (build (set_bin_name nx_user (lit "my-app"))) as [b|] eqn:Eb; [|exfalso; exact (BuildTexts.build_total _ Eb)].
+  exists b. split; [reflexivity|].
+  split; [rewrite (BuildTexts.build_root_bin _ _ _ Eb); discriminate|].
+  split; [exact (build_bins_built _ _ Eb)|].
+  split; [exact (build_nu_class _ _ _ Eb eq_refl eq_refl)|].
+  split; [apply dbuild_erase_congr; reflexivity|].
+  intros H. assert (G : generate_nushell nx_user nx_adv (lit "my-app") = generate_nushell nx_user nx_inn (lit "my-app"))
+    by (unfold generate_nushell; rewrite Eb; exact H).
+  vm_compute in G. discriminate.
+Qed.
+
+(** outside the class: an argument id with a double quote is written unescaped; the help comment that follows
+    is then read inside "..." and a double quote in the TEXT closes the string -- the skeleton depends on the text *)
+Definition nx_bad_arg : arg := mkArg (lit "a""b") None None [] [] ASet None None None false false false.
+Definition nx_bad_cmd : cmd := mkCmd (lit "p") [] [nx_bad_arg] [] None false false sets0 sets0.
+Lemma nushell_quote_in_name_refuted :
+  exists c d1 d2 bin s1 s2,
+    nu_class c = false /\ erase_desc d1 = erase_desc d2 /\
+    generate_nushell c d1 bin = Some s1 /\ generate_nushell c d2 bin = Some s2 /\
+    skeleton (events nu_step NB s1) <> skeleton (events nu_step NB s2).
+Proof.
+  exists nx_bad_cmd, (mkCd None false [mkAd (Some (lit """ x")) false []] []),
+         (mkCd None false [mkAd (Some (lit "xx")) false []] []), (lit "p").
+  eexists. eexists. split; [reflexivity|]. split; [reflexivity|].
+  split; [vm_compute; reflexivity|]. split; [vm_compute; reflexivity|].
+  intros H. vm_compute in H. discriminate.
 Qed.
